@@ -20,6 +20,12 @@ OPERAND = {
 }
 EXTRA_BOOL_FALSE = ("false", "false")
 PRELUDE = 'f = func(a) {return a};'
+# Ordinary statements about OTHER empty / absent values, run before the probes in a second pass over the binary matrix: what
+# a program did to its own variables (assigning empty values, indexing into them, unsetting, concatenating) does not change
+# what the operators give afterwards -- the rule table of NullAlgebra.tla has no history in it.
+HISTORY = ('e = ""; e[1] = 1; @h = ""; @h["k"] = 2; m = {}; m["x"] = ""; m["x"][1] = 3; n = @nosuch; unset e; '
+           'a = [""]; a[1][1] = 4; s = "" . ""; t = s; t[1] = 9; u = ""; v = u; v["k"] = 1; @w = s; @w[2] = 5; '
+           'z = asserting_empty(""); y = "" ?? "d"; unset @h;')
 
 
 def expr(op, a, b):
@@ -33,8 +39,8 @@ def show(e):
     return ('typeof(%s) . "|" . ((is_string(%s) || is_numeric(%s) || is_boolean(%s)) ? ("" . %s) : "")' % (e, e, e, e, e))
 
 
-def binary_program(op, kinds, vals):
-    stmts = [PRELUDE]
+def binary_program(op, kinds, vals, history=False):
+    stmts = [PRELUDE] + ([HISTORY] if history else [])
     for i, (ea, _) in enumerate(vals):
         for j, (eb, _) in enumerate(vals):
             stmts.append('print "cell|%d|%d|" . %s;' % (i, j, show(expr(op, ea, eb))))
@@ -93,15 +99,23 @@ def run(tier, seed):
 
     # ---- binary matrix: one process per operator -----------------------------------------------
     cases = []
-    for op in space["binops"]:
-        cases.append({"argv": [mlr, "-n", "put", binary_program(op, kinds_x, vals)], "timeout_ms": 20000})
+    passes = [(op, h) for h in (False, True) for op in space["binops"]]      # second pass: after HISTORY
+    for op, h in passes:
+        cases.append({"argv": [mlr, "-n", "put", binary_program(op, kinds_x, vals, h)], "timeout_ms": 20000})
     res = vlib.run_cases(cases)
     obs = []
     evaluations = 0
     crashed_cells = []
-    for op, r in zip(space["binops"], res):
+    for (op, hist), r in zip(passes, res):
         cells = parse_cells(r["stdout"])
         n = len(vals)
+        if hist and (r["exit"] != 0 or len(cells) != n * n):
+            # the same matrix ran through without the preceding statements (first pass): they changed the outcome
+            plain = next(rr for (o2, h2), rr in zip(passes, res) if o2 == op and not h2)
+            if plain["exit"] == 0:
+                V.violation({"why": "history-changes-outcome", "op": op},
+                            {"after": HISTORY, "exit": r["exit"], "stderr": r["stderr"][:400], "cells_printed": len(cells)})
+            continue
         if r["exit"] != 0 or len(cells) != n * n:
             # some cell killed the process: evaluate the cells one by one to find which
             singles = []
@@ -123,7 +137,7 @@ def run(tier, seed):
                     crashed_cells.append((op, kinds_x[i], kinds_x[j], crash, sr["stderr"][:300]))
         M = [[cells[(i, j)] for j in range(n)] for i in range(n)]
         evaluations += n * n
-        obs.append({"t": "binary", "op": op, "vals": valrecs, "M": M})
+        obs.append({"t": "binary", "op": op, "vals": valrecs, "M": M, "after_history": hist})
     for op, ka, kb, crash, err in crashed_cells:
         if crash:
             V.violation({"why": "crash", "op": op, "a": ka, "b": kb}, {"stderr": err})
@@ -225,7 +239,9 @@ def run(tier, seed):
             if o["t"] == "binary":
                 i, j = p["i"] - 1, p["j"] - 1
                 key = {"op": o["op"], "a": kinds_x[i], "b": kinds_x[j], "rule": p["rule"]}
-                detail = {"expression": expr(o["op"], vals[i][0], vals[j][0]), "result": o["M"][i][j],
+                if o.get("after_history"):
+                    key["after_history"] = True          # the same cell conforms without the preceding statements?
+                detail = {"expression": expr(o["op"], vals[i][0], vals[j][0]), "result": o["M"][i][j], "after": HISTORY if o.get("after_history") else "",
                           "mirror": o["M"][j][i] if p["rule"] == "commutative-kind" else None}
             elif o["t"] == "unary":
                 key = {"op": o["f"], "a": o["a"]["k"], "rule": p["rule"]}
